@@ -192,7 +192,13 @@ func (g *gen) genDataFile(o dataOpts) *dataFile {
 		if g.bool() {
 			df.lines = append(df.lines, g.join(".", []string{z.name, g.pick([]string{"", g.ip4()}), g.pick([]string{"a", "ns1." + z.name, "ns.other.net"}), g.ttl(), "", ""}))
 		} else {
-			df.lines = append(df.lines, g.join("Z", []string{z.name, "ns1." + z.name, "hostmaster." + z.name, g.pick([]string{"", "2024010101"}), "", "", "", g.pick([]string{"", "300"}), g.ttl(), "", ""}))
+			// split view at the apex: now and then the SOA exists for one location only while the NS
+			// records are untagged (clients elsewhere see a delegation-like zone without SOA)
+			soaLoc := ""
+			if len(df.locs) > 0 && g.chance(1, 4) {
+				soaLoc = g.pick(df.locs)
+			}
+			df.lines = append(df.lines, g.join("Z", []string{z.name, "ns1." + z.name, "hostmaster." + z.name, g.pick([]string{"", "2024010101"}), "", "", "", g.pick([]string{"", "300"}), g.ttl(), "", soaLoc}))
 			df.lines = append(df.lines, g.join("&", []string{z.name, g.pick([]string{"", g.ip4()}), g.pick([]string{"a", "ns1." + z.name}), g.ttl(), "", ""}))
 		}
 		if g.chance(1, 3) {
